@@ -69,7 +69,7 @@ func NewPool(n int, driverBin string) (*Pool, error) {
 			n = 16
 		}
 	}
-	p := &Pool{driverBin: driverBin, JobTimeout: 300 * time.Second}
+	p := &Pool{driverBin: driverBin, JobTimeout: 150 * time.Second}
 	if v, err := time.ParseDuration(os.Getenv("O4PAIR_JOB_TIMEOUT")); err == nil && v > 0 {
 		p.JobTimeout = v
 	}
